@@ -168,6 +168,22 @@ func RunRace(seed int64, dur time.Duration) (out []Ev) {
 			return nil
 		})
 	})
+	// slow readers: callbacks that stay inside a block's read latch for milliseconds, so that committers queue between the
+	// steps of the commit protocol (capacity, latch, id, apply) while others grow the collection
+	spawn(3, func(lr *rand.Rand) {
+		n := uint32(P.Count())
+		o := uint32(0)
+		switch lr.Intn(3) {
+		case 1:
+			o = n - 1 - uint32(lr.Intn(64)) // the tail: the block that is being filled right now
+		case 2:
+			o = uint32(lr.Intn(int(n)))
+		}
+		P.QueryAt(o, func(r column.Row) error {
+			time.Sleep(time.Duration(1+lr.Intn(3)) * time.Millisecond)
+			return nil
+		})
+	})
 	// snapshots, restored into other collections
 	spawn(1, func(lr *rand.Rand) {
 		var buf bytes.Buffer
@@ -242,3 +258,73 @@ func RunRace(seed int64, dur time.Duration) (out []Ev) {
 var wgc int64
 
 func wg_counter() int64 { return atomic.AddInt64(&wgc, 1) }
+
+// RunRaceGrow: the schedule a stress run practically never produces in a form the race detector can report (any unrelated
+// commit in between orders the two accesses through the commit-id counter): a commit to an existing block and a commit that
+// grows the collection into a new block, each stalled at its block latch by a slow reader, and nothing else running. The
+// first committer has passed the capacity step when the second one grows the collection; it then takes its latch and
+// finishes while the second is still waiting for its own.
+func RunRaceGrow(seed int64) (out []Ev) {
+	w := NewWorld()
+	defer func() {
+		if r := recover(); r != nil {
+			w.T.Log(Ev{"e": "panic", "t": "m", "what": fmt.Sprint(r), "stack": string(debug.Stack())})
+			out = w.T.Finish()
+		}
+	}()
+	var ops int64
+	for round := 0; round < 2; round++ {
+		P := column.NewCollection(column.Options{Capacity: 64, Vacuum: time.Hour})
+		P.CreateColumn("a", column.ForInt64())
+		P.CreateColumn("s", column.ForString())
+		blocks := 1 + round // the collection is full up to a block boundary
+		P.Query(func(txn *column.Txn) error {
+			for i := 0; i < blocks*16384; i++ {
+				txn.Insert(func(r column.Row) error { r.SetInt64("a", 1); return nil })
+			}
+			return nil
+		})
+		last := uint32(blocks * 16384) // the first offset of the block that does not exist yet
+		var wg sync.WaitGroup
+		run := func(after time.Duration, f func()) {
+			wg.Add(1)
+			go func() {
+				defer wg.Done()
+				defer func() {
+					if r := recover(); r != nil {
+						w.T.Log(Ev{"e": "crash", "what": fmt.Sprint(r), "stack": string(debug.Stack())})
+					}
+				}()
+				time.Sleep(after)
+				f()
+				atomic.AddInt64(&ops, 1)
+			}()
+		}
+		hold := func(o uint32, d time.Duration) func() {
+			return func() { P.QueryAt(o, func(column.Row) error { time.Sleep(d); return nil }) }
+		}
+		run(0, hold(0, 300*time.Millisecond))    // a slow reader in block 0
+		run(0, hold(last, 600*time.Millisecond)) // and one on the latch of the block to come
+		run(60*time.Millisecond, func() {        // A: a commit to block 0, queues behind the reader
+			P.QueryAt(0, func(r column.Row) error { r.MergeInt64("a", 1); r.SetString("s", "x"); return nil })
+		})
+		run(150*time.Millisecond, func() { // B: grows the collection into the next block, queues behind the other reader
+			P.Insert(func(r column.Row) error { r.SetInt64("a", 2); return nil })
+		})
+		run(200*time.Millisecond, func() { // a snapshot beside both
+			var buf bytes.Buffer
+			P.Snapshot(&buf)
+		})
+		done := make(chan struct{})
+		go func() { wg.Wait(); close(done) }()
+		select {
+		case <-done:
+		case <-time.After(30 * time.Second):
+			w.T.Log(Ev{"e": "hang", "t": "stress", "after": "a commit beside growth did not terminate"})
+			return w.T.Finish()
+		}
+		P.Close()
+	}
+	w.T.Log(Ev{"e": "stress", "ops": int(atomic.LoadInt64(&ops)), "rows": 0, "terminated": true, "builders": 0})
+	return w.T.Finish()
+}
